@@ -68,7 +68,18 @@ func B(b bool) string {
 type Gen struct {
 	*rand.Rand
 	Tier string
+	Seed int64
 	w    *bufio.Writer
+}
+
+// Side is a second stream for one family of cases, derived from the run's seed and the family's name: a family
+// added later draws from its own stream, so the cases of every other family stay what they were.
+func (g *Gen) Side(name string) *Gen {
+	h := int64(1469598103934665603)
+	for i := 0; i < len(name); i++ {
+		h = (h ^ int64(name[i])) * 1099511628211
+	}
+	return &Gen{Rand: rand.New(rand.NewSource(g.Seed ^ h)), Tier: g.Tier, Seed: g.Seed, w: g.w}
 }
 
 // Emit prints one input line.
@@ -114,7 +125,7 @@ func Main(gen func(g *Gen), exec func(kind string, in []string) []string) {
 		tier := fs.String("tier", "quick", "tier")
 		fs.Parse(os.Args[2:])
 		w := bufio.NewWriterSize(os.Stdout, 1<<20)
-		g := &Gen{Rand: rand.New(rand.NewSource(*seed)), Tier: *tier, w: w}
+		g := &Gen{Rand: rand.New(rand.NewSource(*seed)), Tier: *tier, Seed: *seed, w: w}
 		gen(g)
 		w.Flush()
 	case "exec":
